@@ -17,7 +17,7 @@ def Holds (m : Mem) (a : Ptr) (bs : List Byte) : Prop :=
 def Mapped (m : Mem) (a : Ptr) (n : Nat) : Prop := ∀ i, i < n → (m (a + i)).isSome
 
 /-- a C string: the bytes `l`, none of them NUL, followed by the terminator -/
-def CStr (m : Mem) (a : Ptr) (l : List Byte) : Prop := Holds m a (l ++ [0]) ∧ (0 : Byte) ∉ l
+def CStr (m : Mem) (a : Ptr) (l : List Byte) : Prop := Holds m a (l ++ [0#8]) ∧ 0#8 ∉ l
 
 /-- `m'` differs from `m` at most inside `[a, a+n)` (mapped-ness included) -/
 def SameOutside (m m' : Mem) (a : Ptr) (n : Nat) : Prop :=
@@ -28,5 +28,9 @@ def SameMapping (m m' : Mem) : Prop := ∀ j, (m' j).isSome = (m j).isSome
 
 /-- two address ranges do not overlap -/
 def Disjoint (a n b k : Nat) : Prop := a + n ≤ b ∨ b + k ≤ a
+
+/-- C-locale `tolower` / `toupper` on a byte (only ASCII letters move) -/
+def lowerB (b : Byte) : Byte := if 65 ≤ b.toNat ∧ b.toNat ≤ 90 then b + 32#8 else b
+def upperB (b : Byte) : Byte := if 97 ≤ b.toNat ∧ b.toNat ≤ 122 then b - 32#8 else b
 
 end Igris.C08
